@@ -291,6 +291,166 @@ def execute_from_another_directory(ctx, binary):
     return n
 
 
+# ---- fixed families (round 6): what the random / corpus programs hold constant is the SIZE of things and WHERE in a long
+# literal the non-ASCII characters sit.  Expected output is computed here (the literal's own text), never taken from a run.
+PAD = "0123456789abcdefghijklmnopqrstuvwxyz"
+BOUNDS = (16, 32, 64, 128, 256, 512, 1024, 4096, 8192)
+WIDE = ("é", "日", "\U0001F600")            # 2, 3 and 4 bytes in UTF-8
+
+
+def pad(n, salt=0):
+    return "".join(PAD[(i + salt) % len(PAD)] for i in range(n))
+
+
+def straddling_literals(bound):
+    """string values in which one multi-byte character lies across byte offset `bound` (every way a 2-, 3-, 4-byte character can),
+    one made of multi-byte characters only, and the ASCII controls of bound - 1, bound, bound + 1 bytes"""
+    out = []
+    for ch in WIDE:
+        w = len(ch.encode("utf8"))
+        for p in range(bound - w + 1, bound):
+            out.append(pad(p) + ch + "=" + pad(9, p))
+    out.append(WIDE[1] * (bound // 3 + 2))
+    out += [pad(bound - 1), pad(bound), pad(bound + 1)]
+    return out
+
+
+def literal_boundary_programs():
+    """long literals with a multi-byte character at every byte offset around the powers of two from 16 to 8192, in every place a
+    string constant can stand (module level, function, exported by an imported module, list, map key and value, object field,
+    operand).  -> projects with `expect` (exact stdout, exit 0 under both commands)"""
+    q = lambda s: '"' + s + '"'
+    out = []
+    for b in BOUNDS:
+        lits = straddling_literals(b)
+        exp = "".join(l + "\n" for l in lits) + "done\n"
+        ctxs = {
+            "module-level": "".join("s%d = %s\nprint s%d\n" % (i, q(l), i) for i, l in enumerate(lits)),
+            "function": "".join("f%d = fn() -> str {\n  return %s\n}\n" % (i, q(l)) for i, l in enumerate(lits)) + "".join("print f%d()\n" % i for i in range(len(lits))),
+            "list": "l: [str...] = [%s]\nfrom 0 to %d, i {\n  print l[i]\n}\n" % (", ".join(q(l) for l in lits), len(lits)),
+            "map-key-and-value": "m = map[str, str] { %s }\n" % ", ".join("%s: %s" % (q(l), q(l)) for l in lits) + "".join("print get m[%s]\n" % q(l) for l in lits),
+            "object-field": "".join("class K%d {\n  s: str\n  constructor(self) {\n    self.s = %s\n  }\n}\nk%d = K%d()\nprint k%d.s\n" % (i, q(l), i, i, i) for i, l in enumerate(lits)),
+            "operand": "".join("print %s + \"\"\n" % q(l) for l in lits),
+            "print": "".join("print %s\n" % q(l) for l in lits),
+        }
+        for name, body in sorted(ctxs.items()):
+            out.append({"name": "literal:%s:multi-byte-character-across-byte-%d" % (name, b), "entry": "main.ms", "files": {"main.ms": body + "print \"done\"\n"}, "expect": exp})
+        lib = "".join("export s%d: str = %s\n" % (i, q(l)) for i, l in enumerate(lits))
+        out.append({"name": "literal:exported-by-module:multi-byte-character-across-byte-%d" % b, "entry": "main.ms", "expect": exp,
+                    "files": {"lib.ms": lib, "main.ms": "import lib\n" + "".join("print lib.s%d\n" % i for i in range(len(lits))) + "print \"done\"\n"}})
+        out.append({"name": "literal:imported-by-name:multi-byte-character-across-byte-%d" % b, "entry": "main.ms", "expect": exp,
+                    "files": {"lib.ms": lib, "main.ms": "import %s from lib\n" % ", ".join("s%d" % i for i in range(len(lits))) + "".join("print s%d\n" % i for i in range(len(lits))) + "print \"done\"\n"}})
+    return out
+
+
+ROW = "0123456789abcdefghijklmnopqrstuvwxyzABCDEFGHIJKLMNOPQRSTUVWXYZ-_"
+
+
+def text_of_size(n):
+    return (ROW * (n // len(ROW) + 1))[:n]
+
+
+def size_programs():
+    """BIG programs: one string literal of 1 kB ... 1 MB (every size around 64 KiB, where a 16-bit length ends; around 4 / 8 / 32 / 128 KiB),
+    with and without escapes, ASCII and not; at module level, in a function, in an imported module; many literals, many functions, a long
+    list, a long function body, long names.  -> projects with `expect`"""
+    out = []
+    sizes = [1000, 4095, 4096, 4097, 8190, 8191, 8192, 8193, 16384, 32767, 32768, 32769] + list(range(65520, 65544)) + [70000, 131071, 131072, 131073, 204800, 1048576]
+    for n in sizes:
+        t = text_of_size(n)
+        out.append({"name": "size:string-literal-of-%d-bytes" % n, "entry": "main.ms", "files": {"main.ms": "s = \"%s\"\nprint s\nprint \"done\"\n" % t}, "expect": t + "\ndone\n"})
+    for n in (65520, 65534, 65536, 70000, 204800):
+        t = text_of_size(n)
+        out.append({"name": "size:string-literal-of-%d-bytes:in-function" % n, "entry": "main.ms", "expect": t + "\ndone\n",
+                    "files": {"main.ms": "f = fn() -> str {\n  return \"%s\"\n}\nprint f()\nprint \"done\"\n" % t}})
+        out.append({"name": "size:string-literal-of-%d-bytes:in-imported-module" % n, "entry": "main.ms", "expect": t + "\ndone\n",
+                    "files": {"lib.ms": "export s: str = \"%s\"\n" % t, "main.ms": "import lib\nprint lib.s\nprint \"done\"\n"}})
+    # escapes: the record in the file is longer than the value; rows of a table as the seeders' "embedded data"
+    for rows, esc, dec in ((1100, "\\n", "\n"), (1000, "\\\"", "\""), (1000, "\\\\", "\\"), (1021, "\\t", "\t"), (3000, "\\n", "\n")):
+        src = "".join(ROW + esc for _ in range(rows))
+        val = "".join(ROW + dec for _ in range(rows))
+        out.append({"name": "size:table-of-%d-rows-ending-in-%s" % (rows, esc), "entry": "main.ms", "files": {"main.ms": "s = \"%s\"\nprint s\nprint \"done\"\n" % src}, "expect": val + "\ndone\n"})
+    for ch in WIDE:
+        for n in (21845, 32768, 40000):
+            t = ch * n
+            out.append({"name": "size:%d-characters-of-%d-bytes" % (n, len(ch.encode("utf8"))), "entry": "main.ms", "files": {"main.ms": "s = \"%s\"\nprint s\nprint \"done\"\n" % t}, "expect": t + "\ndone\n"})
+    many = [text_of_size(300 + i) for i in range(300)]
+    out.append({"name": "size:300-literals-of-300-bytes", "entry": "main.ms", "files": {"main.ms": "".join("print \"%s\"\n" % t for t in many)}, "expect": "".join(t + "\n" for t in many)})
+    out.append({"name": "size:1000-functions", "entry": "main.ms", "expect": "0\n999\n499500\n",
+                "files": {"main.ms": "".join("f%d = fn() -> int {\n  return %d\n}\n" % (i, i) for i in range(1000)) + "print f0()\nprint f999()\nt = 0\n" + "".join("t = t + f%d()\n" % i for i in range(1000)) + "print t\n"}})
+    out.append({"name": "size:list-of-5000-elements", "entry": "main.ms", "expect": "0\n4999\n12497500\n",
+                "files": {"main.ms": "l: [int...] = [%s]\nprint l[0]\nprint l[4999]\nt = 0\nfrom 0 to 5000, i {\n  t = t + l[i]\n}\nprint t\n" % ", ".join(str(i) for i in range(5000))}})
+    out.append({"name": "size:map-of-2000-pairs", "entry": "main.ms", "expect": "v0\nv1999\n",
+                "files": {"main.ms": "m = map[str, str] { %s }\nprint get m[\"k0\"]\nprint get m[\"k1999\"]\n" % ", ".join("\"k%d\": \"v%d\"" % (i, i) for i in range(2000))}})
+    out.append({"name": "size:6000-statements-at-module-level", "entry": "main.ms", "expect": "6000\n", "files": {"main.ms": "x = 0\n" + "x = x + 1\n" * 6000 + "print x\n"}})
+    out.append({"name": "size:function-body-of-6000-statements", "entry": "main.ms", "expect": "6000\n",
+                "files": {"main.ms": "f = fn() -> int {\n  x = 0\n" + "  x = x + 1\n" * 6000 + "  return x\n}\nprint f()\n"}})
+    for n in (63, 64, 65, 255, 256, 257, 5000, 70000):
+        v, fnn, cn = "v" + pad(n - 1), "f" + pad(n - 1), "C" + pad(n - 1)
+        out.append({"name": "size:names-of-%d-characters" % n, "entry": "main.ms", "expect": "7\n8\n9\n",
+                    "files": {"main.ms": "%s = 7\nprint %s\n%s = fn() -> int {\n  return %s + 1\n}\nprint %s()\nclass %s {\n  %s: int\n  constructor(self) {\n    self.%s = 9\n  }\n}\nk = %s()\nprint k.%s\n" % (v, v, fnn, v, fnn, cn, v, v, cn, v)}})
+    return out
+
+
+def fixed_families(ctx, binary):
+    """each fixed program through `run` and through `compile` + `execute`: both must print exactly what the program's own text says
+    (computed above) and exit 0.  A program the compiler refuses checks nothing: that is reported, not skipped."""
+    base = ctx.mktemp()
+    progs = literal_boundary_programs() + size_programs()
+
+    def one(proj):
+        d = programs.materialize(proj, base)
+        r1 = programs.run_bin(binary, ["run", proj["entry"], "-q"], d, timeout=40)
+        d2 = programs.materialize(proj, base)
+        c = programs.run_bin(binary, ["compile", proj["entry"], "--quick"], d2, timeout=40)
+        r2 = programs.run_bin(binary, ["execute", proj["entry"][:-3] + ".mmm"], d2, timeout=40) if c[0] == 0 else None
+        shutil.rmtree(d, ignore_errors=True)
+        shutil.rmtree(d2, ignore_errors=True)
+        return r1, c, r2
+
+    def cut(proj):
+        # the replay holds the recipe, not megabytes of literal
+        return {"name": proj["name"], "entry": proj["entry"], "how": "write the files (shortened here when long) with: python3 -c \"import sys; sys.path.insert(0, '/verif'); from vlib import c04; "
+                       "p = [q for q in c04.literal_boundary_programs() + c04.size_programs() if q['name'] == %r][0]; [open(f, 'w', encoding='utf8').write(t) for f, t in p['files'].items()]\"; "
+                       "then mscript run %s -q  /  mscript compile %s --quick; mscript execute %s.mmm" % (proj["name"], proj["entry"], proj["entry"], proj["entry"][:-3]),
+                "files": {f: (t if len(t) <= 6000 else t[:3000] + "<... %d characters ...>" % (len(t) - 6000) + t[-3000:]) for f, t in proj["files"].items()}}
+    n = 0
+    reported = [0]
+
+    def report(cls, what, replay):
+        # one cause usually fails dozens of these programs: the first few are written out, the rest counted
+        reported[0] += 1
+        if reported[0] <= 5:
+            ctx.report(cls, what, replay)
+    for proj, (r1, c, r2) in zip(progs, programs.pmap(one, progs, workers=max(2, core.NCPU // 2))):
+        tail = lambda r: {"rc": r[0], "stdout_length": len(r[1]), "stdout_tail": r[1][-300:], "stderr": r[2][-600:]}
+        if c[0] != 0:
+            if r1[0] == 0 and r1[1] == proj["expect"]:
+                report("run-vs-execute:" + proj["name"], "`run` executes %s and prints what it says, `compile` fails with exit %s: %s" % (proj["name"], c[0], (c[1] + c[2])[-300:]),
+                           {"project": cut(proj), "run": tail(r1), "compile": tail(c)})
+            else:
+                report("generator:rejected", "a fixed program is refused or dies (run: exit %s, compile: exit %s) and so checks nothing: %s: %s" % (r1[0], c[0], proj["name"], (c[1] + c[2])[-300:]),
+                           {"project": cut(proj), "run": tail(r1), "compile": tail(c)})
+            continue
+        if 124 in (r1[0], r2[0]):
+            continue
+        n += 1
+        ok1 = r1[0] == 0 and r1[1] == proj["expect"]
+        ok2 = r2[0] == 0 and r2[1] == proj["expect"]
+        if ok1 and ok2:
+            continue
+        if (r1[0], r1[1]) != (r2[0], r2[1]):
+            report("run-vs-execute:" + proj["name"], "run and compile+execute differ on %s: exit %s vs %s, %d vs %d characters printed (%d expected); %s" % (
+                proj["name"], r1[0], r2[0], len(r1[1]), len(r2[1]), len(proj["expect"]), ((r1[2] if not ok1 else r2[2]).strip().splitlines() or [""])[-1][:200]),
+                {"project": cut(proj), "run": tail(r1), "execute": tail(r2), "expected_stdout_length": len(proj["expect"])})
+        else:
+            report("fixed-program-output:" + proj["name"], "both commands agree but do not print what the program says: %s: exit %s, %d characters printed, %d expected" % (
+                proj["name"], r1[0], len(r1[1]), len(proj["expect"])), {"project": cut(proj), "run": tail(r1), "execute": tail(r2), "expected_tail": proj["expect"][-300:]})
+    ctx.cov["fixed_literal_and_size_programs"] = {"programs": len(progs), "run_both_ways": n, "failing": reported[0],
+                                                  "rule": "multi-byte character across byte offsets %r in 9 places; one literal of 1 kB - 1 MB (24 sizes around 65536); tables with escapes; many literals / functions / elements / statements; long names" % (BOUNDS,)}
+    return n
+
+
 def run(ctx):
     ok = core.coq_props(ctx, "Props/C04.v")
     binary = core.build_repo()
@@ -348,6 +508,7 @@ def run(ctx):
     n_run, n_both, n_dump = system_level(ctx, binary, matrix + projects, len(matrix) + (120 if ctx.quick() else len(projects)))
     ctx.cov["programs_recompiled_over_existing_file"] = recompile_over_existing(ctx, binary, projects, 25 if ctx.quick() else 150)
     ctx.cov["programs_executed_from_other_directories"] = execute_from_another_directory(ctx, binary)
+    n_both += fixed_families(ctx, binary)
     ctx.cov["programs_run_both_ways"] = n_both
     ctx.cov["programs_tried"] = n_run
     ctx.cov["traces_validated_against_impl"] = n_dump
